@@ -4,7 +4,7 @@ import (
 	"fmt"
 	"math"
 	"math/bits"
-	"strings"
+	"strconv"
 	"sync"
 )
 
@@ -42,6 +42,9 @@ type Term struct {
 	P1, P2 int
 	id     int
 	defined bool
+	fv     *Term // the single free variable, when fvN == 1
+	fvN    int   // number of distinct free variables: 0, 1, or 2 (= two or more)
+	size   int   // number of nodes (tree size, capped)
 }
 
 var (
@@ -60,19 +63,53 @@ func mask(w int) uint64 {
 }
 
 func intern(t *Term) *Term {
-	var sb strings.Builder
-	sb.WriteString(t.Op)
-	fmt.Fprintf(&sb, "|%d.%d|%d|%s|%d,%d", t.S.K, t.S.W, t.C, t.Name, t.P1, t.P2)
+	var buf [96]byte
+	b := buf[:0]
+	b = append(b, t.Op...)
+	b = append(b, '|')
+	b = strconv.AppendInt(b, int64(t.S.K), 10)
+	b = append(b, '.')
+	b = strconv.AppendInt(b, int64(t.S.W), 10)
+	b = append(b, '|')
+	b = strconv.AppendUint(b, t.C, 10)
+	b = append(b, '|')
+	b = append(b, t.Name...)
+	b = append(b, '|')
+	b = strconv.AppendInt(b, int64(t.P1), 10)
+	b = append(b, ',')
+	b = strconv.AppendInt(b, int64(t.P2), 10)
 	for _, a := range t.Args {
-		fmt.Fprintf(&sb, "#%d", a.id)
+		b = append(b, '#')
+		b = strconv.AppendInt(b, int64(a.id), 10)
 	}
-	k := sb.String()
+	k := string(b)
 	termMu.Lock()
 	defer termMu.Unlock()
 	if e, ok := termTab[k]; ok {
 		return e
 	}
 	t.id = len(termList) + 1
+	switch t.Op {
+	case "const":
+		t.size = 1
+	case "var":
+		t.fv, t.fvN, t.size = t, 1, 1
+	default:
+		t.size = 1
+		for _, a := range t.Args {
+			t.size += a.size
+			if t.size > 1<<20 {
+				t.size = 1 << 20
+			}
+			switch {
+			case a.fvN == 0:
+			case a.fvN == 2 || (t.fvN == 1 && a.fv != t.fv):
+				t.fvN, t.fv = 2, nil
+			case t.fvN == 0:
+				t.fvN, t.fv = 1, a.fv
+			}
+		}
+	}
 	termTab[k] = t
 	termList = append(termList, t)
 	return t
